@@ -297,7 +297,9 @@ func HeaderBytes(resp *Resp) []byte {
 	if resp.Encoding != "" {
 		fmt.Fprintf(&b, "Content-Encoding: %s\r\n", resp.Encoding)
 	}
-	if resp.Chunked {
+	if resp.Status == 204 || resp.Status == 304 || resp.Status < 200 {
+		// no message body and no framing header for these (RFC 9110)
+	} else if resp.Chunked {
 		b.WriteString("Transfer-Encoding: chunked\r\n")
 	} else {
 		fmt.Fprintf(&b, "Content-Length: %d\r\n", len(resp.Entity))
